@@ -242,7 +242,8 @@ import (
 //@ func (*Pool[Transaction]).Acquire
 //@   trusted
 //@   requires nn: p != nil
-//@   ensures  r:  result != nil && toplevel(result) && !result.WithoutSearch && forall k string :: !has(result.store, k)
+//@   ensures  r:  result != nil && toplevel(result) && !result.WithoutSearch && result.gid == "" && forall k string :: !has(result.store, k)
+//@   ensures  own: result.store != nil ==> mapref(result.store).mowner == result
 
 // The transaction pool is created with clearF = Transaction.Clear: releasing a store clears it.
 //@ func (*Pool[Transaction]).Release
@@ -250,9 +251,12 @@ import (
 //@   requires nn:     p != nil
 //@   requires one:    len(els) == 1 && els[0] != nil && txInv(els[0])
 //@   requires empty:  forall k string :: has(els[0].store, k) ==> len(els[0].store[k].l.elems) == 0
-//@   modifies file.arr, file.withoutSearch, file.gtx, Node[model.File].next, Node[model.File].prev, map[string]*file, mem[*file]
+//@   modifies file.arr, file.withoutSearch, file.gtx, Node[model.File].next, Node[model.File].prev, map[string]*file, mem[*file], Transaction.gid
 //@   ghost forall g *file :: g.gtx := ite(g.gtx == els[0], nil, g.gtx)
+//@   ghost els[0].gid := ""
 //@   ensures  cleared: forall k string :: !has(els[0].store, k)
+//@   ensures  gids:    forall t *Transaction :: t != els[0] ==> t.gid == old(t.gid)
+//@   ensures  othertx: forall t *Transaction :: t != nil && t != els[0] && old(txInv(t)) ==> txInv(t)
 //@   ensures  files:   forall g *file :: g.gtx != nil ==> g.gtx == old(g.gtx) && g.arr == old(g.arr) && g.withoutSearch == old(g.withoutSearch) &&
 //@                        g.l.root.next == old(g.l.root.next) && g.l.root.prev == old(g.l.root.prev)
 //@   ensures  nodes:   forall m *Node[model.File] :: toplevel(m) ==> m.next == old(m.next) && m.prev == old(m.prev)
@@ -345,10 +349,13 @@ import (
 //@ func (*Transactions).Put
 //@   requires nn:     txs != nil && tx != nil
 //@   requires empty:  forall k string :: !has(tx.store, k)
+//@   requires owns:   tx.store != nil ==> mapref(tx.store).mowner == tx
 //@   modifies Transactions.store, Transaction.store, Transaction.gid, map[string]*Transaction, map[string]*file, mapref.mowner
 //@   ghost tx.gid := txId
 //@   ghost mapref(tx.store).mowner := tx
 //@   ensures  put:    has(txs.store, txId) && txs.store[txId] == tx && tx.gid == txId
+//@   ensures  othertx: forall t *Transaction :: t != nil && t != tx && old(txInv(t)) ==> txInv(t)
+//@   ensures  owntx:  old(txInv(tx)) ==> txInv(tx)
 //@   ensures  keys:   forall i string :: i != txId ==> has(txs.store, i) == old(has(txs.store, i)) && (has(txs.store, i) ==> txs.store[i] == old(txs.store[i]))
 //@   ensures  store:  tx.store != nil && mapref(tx.store).mowner == tx && forall k string :: !has(tx.store, k)
 //@   ensures  mowners: forall mp *mapref :: mp != mapref(tx.store) ==> mp.mowner == old(mp.mowner)
@@ -445,3 +452,13 @@ func lemmaCollectKeepsLookups(f *file, horizon, p sequence.Seq) (before, after m
 	after = f.LastBefore(p)
 	return before, after
 }
+
+// Lock wrappers (nil-tolerant): no effect on anything under contract here.
+//@ func (*Transaction).Lock
+//@ func (*Transaction).Unlock
+//@ func (*Transaction).RLock
+//@ func (*Transaction).RUnlock
+//@ func (*file).Lock
+//@ func (*file).Unlock
+//@ func (*file).RLock
+//@ func (*file).RUnlock
